@@ -17,6 +17,18 @@ def sod(t):
     return int(h) * 3600 + int(m) * 60 + int(s)
 
 
+OFFS = ["Z", "+00:00", "+01:00", "-05:00", "+05:30", "+05:45", "-09:30", "+12:00", "+12:45", "+13:00", "+13:45", "+14:00", "-11:00", "-12:00"]
+
+
+def with_offset(l, t, off):
+    """(text suffix, key) of local date l, time t written with UTC offset off: the instant is local - offset"""
+    if off == "Z":
+        return "Z", (l, sod(t))
+    sec = (int(off[1:3]) * 3600 + int(off[4:6]) * 60) * (1 if off[0] == "+" else -1)
+    u = sod(t) - sec
+    return off, (l + u // 86400, u % 86400)
+
+
 def dtest_runs(rep, b, ch, pairs, rng):
     """dtest A --cmp B (and the six predicates) -> Cmp events"""
     from concurrent.futures import ThreadPoolExecutor
@@ -32,7 +44,15 @@ def dtest_runs(rep, b, ch, pairs, rng):
         args = ["-i", cc.INFMT[kind] + ("T%T" if ta else "")] if kind != "ymd" or True else []
         if kind in ("ldn",):
             args = ["-i", "ldn"]
-        jobs.append((kind, A, B, fl, args, (la, sod(ta) if ta else 0), (lb, sod(tb) if tb else 0)))
+        pa, pb = (la, sod(ta) if ta else 0), (lb, sod(tb) if tb else 0)
+        if ta and tb and rng.random() < 0.5:
+            # date-times with numeric UTC offsets compare as instants
+            kind, args = "ymd", []
+            sa, pa = with_offset(la, ta, rng.choice(OFFS))
+            sb, pb = with_offset(lb, tb, rng.choice(OFFS))
+            A = cc.fmt_row("ymd", ch.row(la)) + "T" + ta + sa
+            B = cc.fmt_row("ymd", ch.row(lb)) + "T" + tb + sb
+        jobs.append((kind, A, B, fl, args, pa, pb))
 
     def one(j):
         kind, A, B, fl, args, pa, pb = j
@@ -53,6 +73,7 @@ def dsort_runs(rep, b, ch, rng, nruns, maxlines):
     for i in range(nruns):
         n = rng.randrange(2, maxlines)
         withtime = rng.random() < 0.5
+        withoffs = withtime and rng.random() < 0.5
         base = rng.randrange(chainmod.LDN_1601 + 400, caldrv.TAIL_FIRST - 400)
         lines, keys = [], []
         for k in range(n):
@@ -61,8 +82,12 @@ def dsort_runs(rep, b, ch, rng, nruns, maxlines):
                 l = keys[rng.randrange(len(keys))][0]      # duplicates
             t = rng.choice(TIMES) if withtime else None
             txt = cc.fmt_row("ymd", ch.row(l)) + ("T" + t if t else "")
+            key = (l, sod(t) if t else 0)
+            if t and withoffs:
+                sfx, key = with_offset(l, t, rng.choice(OFFS))
+                txt += sfx
             lines.append("id%03d %s payload %d" % (k, txt, rng.randrange(1000)))
-            keys.append((l, sod(t) if t else 0))
+            keys.append(key)
         rev = rng.random() < 0.4
         p = core.run([tool] + (["-r"] if rev else []), inp="".join(x + "\n" for x in lines), timeout=30)
         out = p.stdout.splitlines()
